@@ -191,6 +191,136 @@ def edgefill(run, fx):
                          'which is not a slot index' % (what, need[1], need[0], own, [sorted(w, key=str) for _, w in sites[own]], own))
 
 
+def assocpasses(run, fx):
+    """associateChars is a sequence of passes (reset, the slots' own ranges, the extensions over unclaimed characters, ...): every
+    pass that stores a before / after runs on every call -- no path from the entry to the return goes around its loop, except on an
+    edge that says there is nothing to associate (no slots / no characters).  Whether a pass `would have had nothing to do' for
+    other reasons (e.g. as many slots as characters) is a fact about run-time contents that no test of counts establishes."""
+    fn = fx.one('graphite2::Segment::associateChars')
+    from .util import loops_around
+    heads = {}
+    for e in calls_in(fn):
+        fq = e.get('fq') or ''
+        if fq in ('graphite2::CharInfo::after', 'graphite2::CharInfo::before', 'graphite2::Slot::after', 'graphite2::Slot::before') and e.get('args'):
+            b = fn.block_of[e['i']]
+            ls = loops_around(fn, b)                                # the loops whose body contains the store
+            if ls:
+                outer = ls[-1]                                       # the outermost loop around the store
+                heads.setdefault(outer, []).append(e)
+    if len(heads) < 3:
+        run.broken('CINFO', 'passes of associateChars', 'expected at least three passes that store before/after, found %d' % len(heads), fn.where())
+        return
+    nothing = lambda f: f[1] == '==' and f[2] == '0' and (f[0] in ('this->m_first', 'numChars', 'this->m_numGlyphs', 'this->m_numCharinfo') or f[0].endswith('slotCount()'))
+    cut = dom.edges_with(fn, nothing)
+    for h, es in sorted(heads.items(), key=lambda kv: -kv[0]):
+        inst = 'pass @%s runs on every call' % (fn.blocks[h].get('term') or {}).get('ln')
+        seen, st, bad = set(), [(fn.entry, None)], None
+        while st:
+            b, via = st.pop()
+            if b in seen or b == h:
+                continue
+            seen.add(b)
+            if b == fn.exit:
+                bad = via
+                break
+            for idx, s_ in enumerate(fn.blocks[b]['succ']):
+                if s_ is None or (b, idx) in cut:
+                    continue
+                c_ = fn.term_cond(b)
+                st.append((s_, (b, idx) if c_ is not None and len(fn.blocks[b]['succ']) == 2 and via is None or c_ is not None and len(fn.blocks[b]['succ']) == 2 else via))
+        if bad is None:
+            run.held('CINFO', inst, fn.loc(es[0]), '%d stores of before/after in this pass; no path around it' % len(es))
+        else:
+            c_ = fn.term_cond(bad[0])
+            run.violated('CINFO', inst, '%s:%s' % (fn.file, (fn.blocks[bad[0]].get('term') or {}).get('ln')), 'associateChars can return without running the pass at line %s '
+                         '(which stores %s): the path leaves through the branch on `%s`, which does not say that there are no slots or no characters -- characters a rule left '
+                         'unclaimed keep before/after == -1 and slots keep ranges that do not cover them'
+                         % ((fn.blocks[h].get('term') or {}).get('ln'), sorted({(e.get('fq') or '').split('::', 1)[1] for e in es}), fn.render(fn.strip(c_)) if c_ is not None else '?'))
+
+
+def _walker_range(fn, call, which):
+    """Slot::after(X) / Slot::before(X) in associateChars where X is a walker stepped over unclaimed neighbours: X stays inside
+    [slot's old after(), offset + numChars - 1] (resp. [offset, slot's old before()]) because (1) the walker starts one beyond
+    the slot's own after() (before()), (2) its only step inside a loop goes one way and is guarded, in that iteration, by the
+    comparison with offset + numChars (offset), (3) what is stored is the walker one step back.  Returns the reason or None."""
+    from . import linear
+    from .util import loops_around, reaches_avoiding
+    fwd = which == 'after'
+    X = call['args'][0]
+    xt, xc = linear.lin(fn, X)
+    vars_ = [(t, c) for t, c in xt.items()]
+    if len(vars_) != 1 or vars_[0][1] != 1:
+        return None
+    vname = vars_[0][0]
+    refs = [x for x in fn.walk(X) if x['k'] == 'DeclRefExpr' and x.get('vid') is not None and fn.render(x) == vname]
+    if not refs:
+        return None
+    vid = refs[0]['vid']
+    defs, steps = [], []
+    for _, u in fn.elements():
+        if u['k'] == 'DeclStmt':
+            defs.extend((u, x_['init']) for x_ in u.get('decls', []) if x_.get('vid') == vid and x_.get('init') is not None)
+            continue
+        if not u.get('c') or u['c'][0] is None:
+            continue
+        t_ = fn.strip_all_casts(u['c'][0])
+        if t_['k'] != 'DeclRefExpr' or t_.get('vid') != vid:
+            continue
+        if u['k'] == 'BinaryOperator' and u.get('op') == '=':
+            defs.append((u, u['c'][1]))
+        elif u['k'] == 'UnaryOperator' and u.get('op') in ('pre++', 'post++', 'pre--', 'post--'):
+            steps.append((u, 1 if '++' in u['op'] else -1))
+        elif u['k'] == 'CompoundAssignOperator' and u.get('op') in ('+=', '-=') and fn.strip_all_casts(u['c'][1]).get('v') == 1:
+            steps.append((u, 1 if u['op'] == '+=' else -1))
+        elif u['k'] == 'CompoundAssignOperator':
+            return None
+    alld = [d for d, _ in defs]
+    reach = [(d, rhs) for d, rhs in defs if reaches_avoiding(fn, d, call, [x for x in alld if x is not d])]
+    if len(reach) != 1:
+        return None
+    d0, rhs = reach[0]
+    it, ic = linear.lin(fn, rhs)
+    getter = 'graphite2::Slot::' + which
+    anchor = [t for t in it if t.endswith('.%s()' % which) or t.endswith('->%s()' % which)]
+    if len(it) != 1 or len(anchor) != 1 or it[anchor[0]] != 1 or ic != (1 if fwd else -1):
+        return None
+    # steps of this walk: those the definition reaches without another definition in between
+    mine = [(u, dr) for u, dr in steps if reaches_avoiding(fn, d0, u, [x for x in alld if x is not d0])]
+    cl = loops_around(fn, fn.block_of[call['i']])
+    inloop = [(u, dr) for u, dr in mine if [h for h in loops_around(fn, fn.block_of[u['i']]) if h not in cl]]
+    post = [(u, dr) for u, dr in mine if (u, dr) not in inloop]
+    if len(inloop) != 1 or inloop[0][1] != (1 if fwd else -1):
+        return None
+    su = inloop[0][0]
+    guard = None
+    for cond, pol in dom.edge_guards(fn, fn.block_of[su['i']]):
+        for at, p in dom.atoms(fn, cond, pol):
+            for t, c in linear.lower_bounds(fn, at, p):
+                if fwd and t.get(vname) == -1 and c <= -1:
+                    rest = {k_: c_ for k_, c_ in t.items() if k_ != vname}
+                    if sorted(rest.values()) == [1, 1] and any('numChars' in k_ for k_ in rest) and any(k_ == 'offset' for k_ in rest):
+                        guard = fn.render(fn.strip(at))
+                if not fwd and t.get(vname) == 1 and c <= 0:
+                    rest = {k_: c_ for k_, c_ in t.items() if k_ != vname}
+                    if rest == {'offset': -1}:
+                        guard = fn.render(fn.strip(at))
+    if guard is None:
+        return None
+    # the steps after the loop all lie on the way to the call
+    k = 0
+    for u, dr in post:
+        if not reaches_avoiding(fn, su, u) and not reaches_avoiding(fn, d0, u):
+            return None
+        if not (fn.block_of[u['i']] in fn.dominators()[fn.block_of[call['i']]]):
+            return None
+        if fn.block_of[u['i']] == fn.block_of[call['i']] and fn.pos_of[u['i']] > fn.pos_of[call['i']]:
+            continue
+        k += dr
+    if k + xc != (-1 if fwd else 1):
+        return None
+    return 'walker from %s%+d, stepped only under `%s`, stored one step back: stays within the text and never short of the slot\'s own %s()' % (anchor[0], ic, guard, which)
+
+
 def assocdom(run, fx):
     n = 0
     for q in SETTERS:
@@ -214,6 +344,8 @@ def assocdom(run, fx):
                     return closed(fn.const_init[x['vid']], depth + 1)          # a local that stands for one expression
                 return None
             cf = closed(a)
+            if not cf and fn.q == 'graphite2::Segment::associateChars':
+                cf = _walker_range(fn, e, q.split('::')[-1])
             if cf:
                 ok = True
                 why = cf
@@ -282,9 +414,11 @@ def run(run):
     cinfo(run, fx)
     gapfill(run, fx)
     edgefill(run, fx)
+    assocpasses(run, fx)
     from . import width
-    width.no_narrow(run, fx, 'CINFO', ['graphite2::Slot::m_original', 'graphite2::Slot::m_before', 'graphite2::Slot::m_after',
-                                       'graphite2::CharInfo::m_before', 'graphite2::CharInfo::m_after', 'graphite2::CharInfo::m_base',
+    width.no_narrow(run, fx, 'CINFO', [('Slot::original', 'graphite2::Slot::originate'), ('Slot::before', 'graphite2::Slot::before'),
+                                       ('Slot::after', 'graphite2::Slot::after'), ('CharInfo::before', 'graphite2::CharInfo::before'),
+                                       ('CharInfo::after', 'graphite2::CharInfo::after'), ('CharInfo::base', 'graphite2::CharInfo::base'),
                                        'graphite2::Segment::m_numCharinfo'])
     c12.nulstop(run, fx)
     c12.countsync(run, fx)
